@@ -30,8 +30,10 @@ def run(ck):
     ck.rule("C18.R3", "bridge decision tables (LogTracer::enabled, dispatch_record)", floor=4)
     ck.rule("C18.R4", "log emission only until a collector is installed; at most one per path", floor=100)
     ck.rule("C18.R5", "`a collector has been installed` is sticky: set by both install paths, has_been_set() reads only that flag", floor=3)
+    ck.rule("C18.R6", "LogTracer builder options accumulate: no builder call discards an ignored prefix or the max level", floor=3)
     F = Facts("default")
     ck.configs.append("default")
+    r6(ck, F)
     r5(ck, F)
     r1(ck, F)
     r2(ck, F)
@@ -372,3 +374,58 @@ def r5(ck, F):
         ck.bad("C18.R5", "EXISTS is never cleared", where(clears[0][0].raw["sp"]), "%s writes a value other than `true` to EXISTS" % clears[0][0].path)
     else:
         ck.ok("C18.R5", "EXISTS is never cleared")
+
+
+def r6(ck, F):
+    """The ignore list decides which log records are NOT turned into events (avoiding duplicates of tracing's own log
+    output). Every builder method returns a builder that still carries everything configured so far."""
+    B = "tracing_log::log_tracer::Builder"
+    adt = F.adts.get(B)
+    if not ck.anchor("C18.R6", "log_tracer::Builder", adt):
+        return
+    fields = [f["name"] for f in adt["variants"][0]["fields"]]
+    for i in F.impls:
+        if i.get("trait") or i.get("self_ty") != B:
+            continue
+        for m, path in sorted(i["methods"].items()):
+            b = F.body(path)
+            if b is None or not b.locals or b.locals[0] != B or b.argc < 1 or b.locals[1] != B:
+                continue        # only `fn(self, ..) -> Self` builder steps
+            key = "Builder::%s keeps every option configured before it" % m
+            problems = []
+            n = 0
+            for p in PathEval(b).run():
+                if p.end != "return":
+                    continue
+                n += 1
+                txt = show(p.ret)
+                if p.ret == ("arg", 1):
+                    # returns the (mutated) builder itself: mutations may only add
+                    for c in p.calls:
+                        if c[1].get("method") in ("clear", "truncate", "pop", "drain", "retain", "remove", "swap_remove") and "ignore_crates" in show(c[2][0]):
+                            problems.append("removes entries from ignore_crates (%s)" % c[1].get("method"))
+                    for bb in p.blocks:
+                        for st in b.blocks[bb]["stmts"]:
+                            if st["k"] == "assign" and st["lhs"]["l"] == 1 and any(isinstance(x, dict) and x.get("n") == "ignore_crates" for x in st["lhs"].get("p", [])):
+                                problems.append("overwrites ignore_crates")
+                elif p.ret[0] == "call" and p.ret[1].endswith("::fold") and len(p.ret[2]) == 3 and p.ret[2][1] == ("arg", 1) \
+                        and B + "::" in show(p.ret[2][2]):
+                    pass        # folds a builder step over the items, starting from self
+                elif p.ret[0] == "agg" and p.ret[1] == B:
+                    comps = dict(zip(fields, p.ret[3])) if len(p.ret) > 3 and len(p.ret[3]) == len(fields) else {}
+                    for f in fields:
+                        t = show(comps.get(f)) if f in comps else txt
+                        if "arg1.%s" % f not in t and f != option_set_by(m):   # a setter replaces its own scalar option only
+                            problems.append("the returned builder's `%s` is %s: what was configured before is discarded" % (f, t[:80]))
+                else:
+                    problems.append("returns %s: not recognisably the accumulated builder" % txt[:100])
+            if not n:
+                continue
+            if problems:
+                ck.bad("C18.R6", key, where(b.raw["sp"]), "; ".join(sorted(set(problems))[:3]), fn=path)
+            else:
+                ck.ok("C18.R6", key, fn=path)
+
+
+def option_set_by(method):
+    return {"with_max_level": "filter"}.get(method)
